@@ -69,12 +69,17 @@ class Resolve:
         r = eng.call(eng.mir.find('JsrPackageVersionResolver', 'resolve_version'),
                      [ref_to(vw.resolver, 'resolver'), ref_to(vw.req, 'req'), ex_iter, ref_to(vw.cached_set, 'cached')], TRUE)
         self.is_err = r.is_variant(1)
-        ok = r.vars[0].f[0]; st = eng.mir.structs['JsrVersionResolverResolvedVersion']
-        self.yanked = ok.f[st.index('is_yanked')]; self.version = uid(eng, ok.f[st.index('version')])
-        er = r.vars[1].f[0]; nd = er.f[eng.mir.structs['JsrPackageReqNotFoundError'].index('newest_dependency_date')]
-        self.err_has_date = opt_is_some(nd)
-        p = opt_payload(nd)
-        self.err_date = p.f[0] if isinstance(p, Agg) else (p if p is not None else BV(0, 16))
+        st = eng.mir.structs['JsrVersionResolverResolvedVersion']
+        self.yanked, self.version = FALSE, BV(0, 8)
+        if 0 in r.vars and r.vars[0].f and r.vars[0].f[0] is not None:
+            ok = r.vars[0].f[0]
+            self.yanked = ok.f[st.index('is_yanked')]; self.version = uid(eng, ok.f[st.index('version')])
+        self.err_has_date, self.err_date = FALSE, BV(0, 16)
+        if 1 in r.vars and r.vars[1].f and r.vars[1].f[0] is not None:
+            er = r.vars[1].f[0]; nd = er.f[eng.mir.structs['JsrPackageReqNotFoundError'].index('newest_dependency_date')]
+            self.err_has_date = opt_is_some(nd)
+            p = opt_payload(nd)
+            self.err_date = p.f[0] if isinstance(p, Agg) else (p if p is not None else BV(0, 16))
     def decode(self, m):
         from ..ops import ev
         if ev(m, self.is_err): return {'err': {'date': ev(m, self.err_date) if ev(m, self.err_has_date) else None}}
@@ -180,3 +185,31 @@ def build_exclusion(mir, sym, eng, cube):
         qs.insert(0, Query('unwinding:' + fname.split('>::')[-1], Or(gd for f, gd in eng.exceeded if f == fname), kind='unwind'))
     qs.insert(0, Query('no-panic', Or(gd for _, gd in eng.panics)))
     return eng, world, list(sym.cons), qs
+
+def differential(mir, seed, count):
+    """encoder validation: concrete version worlds through the interpreter and through the real crate"""
+    import random, time
+    from ..harness import run_replay
+    rng = random.Random(2000 + seed)
+    s = z3.Solver(); s.check(); M0 = s.model()
+    t0 = time.time(); bad, examples = 0, []
+    for c in range(count):
+        U, E = rng.choice([2, 3, 4, 5]), rng.choice([0, 1, 2])
+        cube = {}
+        perm = list(range(U)); rng.shuffle(perm)
+        for i in range(U):
+            cube.update({f'v{i}_present': rng.random() < 0.7, f'v{i}_yanked': rng.random() < 0.3, f'v{i}_has_date': rng.random() < 0.7, f'v{i}_date': rng.randrange(1, 6),
+                         f'v{i}_matches': rng.random() < 0.6, f'v{i}_cached': rng.random() < 0.3, f'perm{i}': perm[i]})
+        for k in range(E): cube.update({f'ex{k}_p': rng.random() < 0.7, f'ex{k}_v': rng.randrange(U)})
+        cube.update({'cutoff_p': rng.random() < 0.6, 'cutoff': rng.randrange(1, 6)})
+        sym = Sym(cube)
+        eng = Engine(mir, usize_bits=8, unroll=U + E + 2)
+        vw = VersionWorld(mir, sym, U, E); vw.configure(eng)
+        res = Resolve(eng, vw)
+        if any(not z3.is_false(g) for _, g in eng.exceeded): raise Unsupported('differential: unwinding bound exceeded')
+        dec = res.decode(M0)
+        real = run_replay({'world': VWJson(vw).to_json(M0), 'ops': [{'op': 'resolve_version'}]})['outputs'][0]
+        if dec != real:
+            bad += 1
+            if len(examples) < 3: examples.append({'world': VWJson(vw).to_json(M0), 'interpreter': dec, 'real': real})
+    return {'cases': count, 'operations_compared': count, 'mismatches': bad, 'examples': examples, 'seconds': round(time.time() - t0, 1), 'seed': seed}
